@@ -4,13 +4,14 @@ from vlib import core
 
 
 def merged_known(ctx, prop_id):
-    """known_findings.json is generated from known_findings.d/*.json by tools/gen_manifest.py; read the
-    family file as well so that the check does not depend on when the aggregate was last regenerated."""
+    """known_findings.json is generated from known_findings.d/*.json by tools/gen_manifest.py; the family
+    file is authoritative for its own signatures (an entry that was repaired since the aggregate was last
+    regenerated must not stay open), entries only the aggregate has are kept."""
     base = core.Ctx.known_findings(ctx)
     p = os.path.join(core.VERIF, "known_findings.d", "ops.json")
-    extra = [k for k in json.load(open(p)) if k.get("property") == prop_id and k.get("status") == "open"]
-    seen = {k["signature"] for k in base}
-    return base + [k for k in extra if k["signature"] not in seen]
+    family = [k for k in json.load(open(p)) if k.get("property") == prop_id]
+    family_sigs = {k["signature"] for k in family}
+    return [k for k in base if k["signature"] not in family_sigs] + [k for k in family if k.get("status") == "open"]
 
 
 def case_classes(req, impl):
